@@ -163,6 +163,9 @@ func main() {
 		r.res.CorpusRun++
 	}
 	rule := run(r)
+	for _, g := range extraGens[*prop] {
+		g(r)
+	}
 	r.flushDrift()
 	r.Finish(rule, *out)
 }
